@@ -476,3 +476,24 @@ pub struct H3 {
     #[serde(rename = "etag")]
     pub etag: String,
 }
+
+
+/// A value whose serialisation fails AFTER part of it has been written (first field
+/// out, then an error).  Responses / page selectors made of it are never judged
+/// themselves; they are thrown in between judged cases so that whatever a failed
+/// serialisation leaves behind meets the next, judged, serialisation.
+#[derive(Clone, Debug, Deserialize, JsonSchema)]
+pub struct Poison {
+    pub a: String,
+    #[allow(dead_code)]
+    pub b: u32,
+}
+
+impl Serialize for Poison {
+    fn serialize<S: serde::Serializer>(&self, s: S) -> Result<S::Ok, S::Error> {
+        use serde::ser::{Error, SerializeStruct};
+        let mut st = s.serialize_struct("Poison", 2)?;
+        st.serialize_field("a", &self.a)?;
+        Err(S::Error::custom("vmon: deliberately unserialisable after the first field"))
+    }
+}
